@@ -361,6 +361,11 @@ nextFileMatch:
 		if md.Tombstone {
 			continue
 		}
+		// 🚨 SECURITY: neither must the name and URL templates of another
+		// tenant's repository leak through the result's repository maps.
+		if !tenant.HasAccess(ctx, md.TenantID) {
+			continue
+		}
 		r := md
 		addRepo(&res, &r)
 		for _, v := range r.SubRepoMap {
